@@ -271,7 +271,8 @@ func genC12(c *Ctx) {
 			nsyn = 9
 		}
 		r := &SM64{c.seed ^ 0xc12}
-		odd := []string{"A-1.0", "a-1.0+", "X.Y", "Z--", "0", "with-exception", "Q-only", "Q-or-later", "MIT", "mit-0"}
+		odd := []string{"A-1.0", "a-1.0+", "X.Y", "Z--", "0", "with-exception", "Q-only", "Q-or-later", "MIT", "mit-0",
+			"CC-BY-100%-Free", "P%s", "%d-1.0", "Escaped-%%-twice", "trailing%", "%v", strings.Repeat("Long-Identifier-", 5) + "1.0"}
 		for k := 0; k < nsyn; k++ {
 			var sl, se []jl
 			n := 4 + r.Intn(12)
@@ -300,12 +301,18 @@ func genC12(c *Ctx) {
 				[2]string{pairsLine("E", se), "G " + hx(string(files["get_exceptions.go"]))})
 		}
 		os.RemoveAll(scratch)
+		refreshRan, refreshNote := refreshScenario(c, lic, exc)
+		c12refresh = map[string]interface{}{"ran": refreshRan, "note": refreshNote}
 		for _, gc := range c12genCases {
 			c.memo[gc[0]] = gc[1]
 			c.order = append(c.order, gc[0])
 		}
-		c12extra = map[string]interface{}{"generator_runs": len(c12genCases) / 3, "regenerated_files_differ": c12regenDiff}
+		c12extra = map[string]interface{}{"generator_runs": len(c12genCases) / 3, "regenerated_files_differ": c12regenDiff, "refresh_scenario": c12refresh}
 	}
+	for _, f := range c12refreshFails {
+		c.fail(f.api, f.args, f.obs, f.exp, f.how)
+	}
+	c.stats["refresh_probe_calls"] = c12refreshCalls
 	for _, f := range c12regenDiff {
 		c.fail("cmd extract -l -e", f, "differs from the committed file", "byte-for-byte identical", "the real generator run on /repo/cmd/*.json in a scratch copy")
 	}
@@ -342,6 +349,125 @@ func genC12(c *Ctx) {
 }
 
 var c12regenDiff []string
+var c12refresh map[string]interface{}
+var c12refreshCalls int
+
+type c12rf struct {
+	api      string
+	args     interface{}
+	obs, exp string
+	how      string
+}
+
+var c12refreshFails []c12rf
+
+// recorded once (the scenario runs in the first generator pass), reported in every pass
+func c12refreshFail(api string, args interface{}, obs, exp, how string) {
+	c12refreshFails = append(c12refreshFails, c12rf{api, args, obs, exp, how})
+}
+
+// refreshScenario: a data refresh seen end to end.  In a scratch copy of the whole module the SPDX JSON gets further
+// entries (long ids, ids with digits and dots; active, deprecated, exceptions), the real generator is run there, this
+// driver is built there against the regenerated tables, and every listed id must be accepted as a one-term expression,
+// every exception after WITH and nowhere else - the last sentence of the property, for tables other than today's.
+func refreshScenario(c *Ctx, lic, exc []jl) (ran bool, note string) {
+	src := os.Getenv("VERIF_HARNESS")
+	if src == "" || os.Getenv("VERIF_RUNDIR") == "" {
+		return false, "VERIF_HARNESS / VERIF_RUNDIR not set"
+	}
+	scratch := filepath.Join(os.Getenv("VERIF_RUNDIR"), "refresh")
+	os.RemoveAll(scratch)
+	defer os.RemoveAll(scratch)
+	copyTree := func(rel string, skipTests bool) {
+		files, _ := filepath.Glob(filepath.Join(repoDir(), rel, "*"))
+		must(os.MkdirAll(filepath.Join(scratch, rel), 0o755))
+		for _, f := range files {
+			st, err := os.Stat(f)
+			if err != nil || st.IsDir() || (skipTests && strings.HasSuffix(f, "_test.go")) {
+				continue
+			}
+			b, err := os.ReadFile(f)
+			must(err)
+			must(os.WriteFile(filepath.Join(scratch, rel, filepath.Base(f)), b, 0o644))
+		}
+	}
+	copyTree(".", true)
+	copyTree("cmd", true)
+	copyTree("spdxexp", true)
+	copyTree("spdxexp/spdxlicenses", true)
+	os.Remove(filepath.Join(scratch, "spdxexp", "verif_hooks.go"))
+	var newLic, newExc []jl
+	for i, n := range []int{12, 33, 40, 63, 64, 65, 66, 100, 130, 300} {
+		newLic = append(newLic, jl{"Refreshed-" + strings.Repeat("x", n-10), i%4 == 3})
+		ky := n - 20
+		if ky < 1 {
+			ky = 1
+		}
+		newExc = append(newExc, jl{"Refreshed-" + strings.Repeat("y", ky) + "-exception", i%5 == 4})
+	}
+	newLic = append(newLic, jl{"Refreshed-2.0.1", false}, jl{"Refreshed-10.0", false}, jl{"zz-Refreshed.dotted.id-3", true})
+	allLic := append(append([]jl{}, lic...), newLic...)
+	allExc := append(append([]jl{}, exc...), newExc...)
+	writeSynthJSON(filepath.Join(scratch, "cmd"), allLic, allExc, nil)
+	bin := filepath.Join(scratch, "gen.bin")
+	build := exec.Command("go", "build", "-o", bin, ".")
+	build.Dir = filepath.Join(scratch, "cmd")
+	if o, err := build.CombinedOutput(); err != nil {
+		return false, "go build of cmd failed in the scratch copy: " + string(o)
+	}
+	run := exec.Command(bin, "extract", "-l", "-e")
+	run.Dir = filepath.Join(scratch, "cmd")
+	if o, err := run.CombinedOutput(); err != nil {
+		c12refreshFail("cmd extract -l -e", "cmd/*.json extended with further ids", "generator failed: "+string(o), "regenerated tables", "real generator in a scratch copy of the module")
+		return true, ""
+	}
+	must(os.MkdirAll(filepath.Join(scratch, "verifdriver"), 0o755))
+	srcs, _ := filepath.Glob(filepath.Join(src, "godriver", "*.go"))
+	for _, f := range srcs {
+		b, err := os.ReadFile(f)
+		must(err)
+		must(os.WriteFile(filepath.Join(scratch, "verifdriver", filepath.Base(f)), b, 0o644))
+	}
+	probe := filepath.Join(scratch, "probe.bin")
+	pb := exec.Command("go", "build", "-o", probe, "./verifdriver")
+	pb.Dir = scratch
+	if o, err := pb.CombinedOutput(); err != nil {
+		return false, "the driver does not build against the regenerated tables: " + string(o)
+	}
+	var lines, want []string
+	for _, x := range allLic {
+		lines = append(lines, "V "+hx(x.ID), "V "+hx(strings.ToUpper(x.ID)), "S "+hx(x.ID)+" "+hxl([]string{x.ID}))
+		want = append(want, "V 1", "V 1", "S T")
+	}
+	for _, x := range allExc {
+		if x.Dep {
+			continue
+		}
+		lines = append(lines, "V "+hx("MIT WITH "+x.ID), "V "+hx(x.ID), "V "+hx("MIT AND "+x.ID))
+		want = append(want, "V 1", "V 0", "V 0")
+	}
+	ev := exec.Command(probe, "eval")
+	ev.Dir = scratch
+	ev.Stdin = strings.NewReader(strings.Join(lines, "\n") + "\n")
+	o, err := ev.Output()
+	if err != nil {
+		c12refreshFail("library on regenerated tables", "cmd/*.json extended with further ids", "probe failed: "+err.Error(), "answers", "driver built in the scratch copy")
+		return true, ""
+	}
+	got := strings.Split(strings.TrimSpace(string(o)), "\n")
+	for i := range lines {
+		c12refreshCalls++
+		if i >= len(got) || got[i] != want[i] {
+			g := "(no answer)"
+			if i < len(got) {
+				g = got[i]
+			}
+			c12refreshFail("library on regenerated tables", map[string]interface{}{"call": lines[i], "scenario": "cmd/*.json extended with further ids, generator re-run, library rebuilt"}, g, want[i],
+				"every listed license id is accepted as a one-term expression (in any letter case) and matches itself; every exception id is accepted after WITH and nowhere else")
+		}
+	}
+	return true, ""
+}
 
 // ---------------- C13 ----------------
 type call struct {
@@ -429,6 +555,23 @@ func runC13(c *Ctx, out string) {
 	lines = append(lines, "S "+hx("MIT OR Apache-2.0")+" "+hxl([]string{"Zlib", "MIT", "Apache-2.0", "MIT", "ISC", "BSD-3-Clause", "Apache-2.0"}),
 		"S "+hx("GPL-2.0-or-later AND MIT")+" "+hxl([]string{"mit", "GPL-3.0-only", "Zlib", "GPL-3.0-only", "0BSD"}),
 		"L "+hxl([]string{"Zlib", "FOO", "MIT", "BAR", "(", "Apache-2.0"}))
+	// a flood of distinct inputs between repetitions of the same calls (bounded caches, recycled buffers): the
+	// repetitions are the workload itself (every history re-executes every call)
+	flood := 700
+	facts, mutableState := staticScan(repoDir())
+	if mutableState || c.thorough() {
+		flood = 5000
+	}
+	for i := 0; i < flood; i++ {
+		switch i % 3 {
+		case 0:
+			lines = append(lines, "X "+hx(fmt.Sprintf("LicenseRef-flood-%d OR MIT", i)))
+		case 1:
+			lines = append(lines, "S "+hx("MIT")+" "+hxl([]string{fmt.Sprintf("LicenseRef-flood-%d", i), "MIT"}))
+		default:
+			lines = append(lines, "L "+hxl([]string{fmt.Sprintf("LicenseRef-flood-%d", i), "Apache-2.0"}))
+		}
+	}
 	calls := make([]*call, len(lines))
 	snapshot := make([]call, len(lines))
 	for i, l := range lines {
@@ -586,7 +729,8 @@ func runC13(c *Ctx, out string) {
 	cc.samples = lines[:5]
 	cc.requests = len(lines) * (histories + 1)
 	cc.write(out, map[string]interface{}{"calls": len(lines), "histories": histories, "goroutines": G, "repetitions": reps,
-		"race_detector": raceEnabled, "cold_start_processes": coldRuns, "cold_start_differences": coldBad, "captured_output_bytes": captured.Len(), "mutated_arguments": len(mutated), "result_differences": len(diffs)})
+		"race_detector": raceEnabled, "cold_start_processes": coldRuns, "cold_start_differences": coldBad, "captured_output_bytes": captured.Len(), "mutated_arguments": len(mutated), "result_differences": len(diffs),
+		"static_scan_of_the_package": facts, "heavier_history_workload_because_of_package_level_state": mutableState})
 }
 
 // ---------------- C14 ----------------
@@ -643,6 +787,62 @@ var families = []family{
 	}},
 	{"or_later_rewrites", func(n int) (string, []string) { return rep("Apache-2.0-or-later", " AND ", n), []string{"Apache-2.0"} }},
 	{"long_id", func(n int) (string, []string) { return "MIT AND " + strings.Repeat("A", n*8), []string{"MIT"} }},
+	// identifiers with many separators (hand-written or backtracking id matchers)
+	{"dotted_ref", func(n int) (string, []string) { return "LicenseRef-" + strings.Repeat("a.", n) + "a", []string{"MIT"} }},
+	{"dashed_ref", func(n int) (string, []string) { return "MIT OR LicenseRef-" + strings.Repeat("a-", n) + "a", []string{"MIT"} }},
+	{"dotted_docref", func(n int) (string, []string) { return "DocumentRef-" + strings.Repeat("a.", n) + "a:LicenseRef-" + strings.Repeat("b.-", n/2) + "b", []string{"MIT"} }},
+	{"dotted_unknown", func(n int) (string, []string) { return "MIT AND " + strings.Repeat("a.", n) + "a!", []string{"MIT"} }},
+	{"dotted_allowed", func(n int) (string, []string) { return "MIT", []string{"MIT", "LicenseRef-" + strings.Repeat("1.0-", n) + "x"} }},
+	// exceptions: one WITH term first / last / everywhere in a long chain
+	{"with_first_or_chain", func(n int) (string, []string) { return "GPL-2.0-only WITH Classpath-exception-2.0 OR " + rep("MIT", " OR ", n), []string{"ISC", "GPL-2.0-only WITH Bison-exception-2.2"} }},
+	{"with_first_and_chain", func(n int) (string, []string) { return "GPL-2.0-only WITH Classpath-exception-2.0 AND " + rep("MIT", " AND ", n), []string{"MIT", "GPL-2.0-only WITH Classpath-exception-2.0"} }},
+	{"with_everywhere", func(n int) (string, []string) { return rep("GPL-2.0-or-later WITH Classpath-exception-2.0", " OR ", n), []string{"MIT"} }},
+	{"with_distinct_chain", func(n int) (string, []string) {
+		p := make([]string, n)
+		for i := range p {
+			p[i] = "MIT WITH " + tExcs[i%len(tExcs)]
+		}
+		return strings.Join(p, " AND "), []string{"MIT WITH " + tExcs[0], "MIT"}
+	}},
+	// the allowed list: duplicates, variants of one id, long list against long chain
+	{"duplicate_allowed", func(n int) (string, []string) {
+		a := make([]string, n)
+		for i := range a {
+			a[i] = []string{"MIT", "mit", "(MIT)", "MIT+", "ISC"}[i%5]
+		}
+		return "Apache-2.0 OR Zlib", a
+	}},
+	{"exception_variants_allowed", func(n int) (string, []string) {
+		a := make([]string, n)
+		for i := range a {
+			a[i] = "MIT WITH " + tExcs[i%len(tExcs)]
+		}
+		return "MIT AND ISC", a
+	}},
+	{"list_times_chain", func(n int) (string, []string) {
+		p, a := make([]string, n), make([]string, n)
+		for i := range p {
+			p[i] = fmt.Sprintf("LicenseRef-p%d", i)
+			a[i] = fmt.Sprintf("LicenseRef-q%d", i)
+		}
+		return strings.Join(p, " AND "), append(a, "LicenseRef-p0")
+	}},
+	{"ranged_list_times_chain", func(n int) (string, []string) {
+		a := make([]string, n)
+		for i := range a {
+			a[i] = []string{"GPL-1.0-only", "LGPL-2.0-only", "Apache-1.0", "OLDAP-1.1", "CC-BY-1.0", "AFL-1.1"}[i%6] + "+"
+		}
+		return rep("GPL-3.0-or-later", " AND ", n), a
+	}},
+	// repeated identical sub-expressions, invalid tails, runs of one byte
+	{"repeated_group", func(n int) (string, []string) { return rep("(MIT AND (ISC OR Zlib))", " OR ", n), []string{"Zlib"} }},
+	{"twin_groups", func(n int) (string, []string) { return rep("(MIT OR ISC AND Zlib) AND (MIT AND ISC OR Zlib)", " AND ", n/2+1), []string{"MIT", "Zlib"} }},
+	{"invalid_tail", func(n int) (string, []string) { return rep("MIT", " AND ", n) + " AND", []string{"MIT"} }},
+	{"unknown_ids", func(n int) (string, []string) { return rep("MIT", " OR ", n) + " OR NOT-A-LICENSE-" + strings.Repeat("x", n), []string{"MIT"} }},
+	{"spaces", func(n int) (string, []string) { return "MIT" + strings.Repeat(" ", n*8) + "AND" + strings.Repeat(" ", n*8) + "ISC", []string{"MIT", "ISC"} }},
+	{"plus_run", func(n int) (string, []string) { return "GPL-2.0" + strings.Repeat("+", n), []string{"MIT"} }},
+	{"open_parens", func(n int) (string, []string) { return strings.Repeat("(", n) + "MIT", []string{"MIT"} }},
+	{"case_mixed_rewrites", func(n int) (string, []string) { return rep("apache-2.0-OR-LATER", " or ", n), []string{"APACHE-1.0+"} }},
 }
 
 func c14child(args []string) {
@@ -672,6 +872,13 @@ func c14child(args []string) {
 	l, err2 := spdxexp.ExtractLicenses(e)
 	d2 := time.Since(t1)
 	runtime.ReadMemStats(&m2)
+	// ValidateLicenses over the allowed entries plus the expression (folded into the ExtractLicenses figures)
+	var m3 runtime.MemStats
+	t2 := time.Now()
+	spdxexp.ValidateLicenses(append(append([]string{}, a...), e))
+	d2 += time.Since(t2)
+	runtime.ReadMemStats(&m3)
+	m2.TotalAlloc = m3.TotalAlloc
 	size := len(e)
 	for _, x := range a {
 		size += len(x)
@@ -769,7 +976,7 @@ func runC14(c *Ctx, out string) {
 				p := rs[i-1]
 				grow := float64(r.Size) / float64(p.Size)
 				lim := grow * grow * grow * 1.25 // degree <= 3 per size ratio, with slack
-				for _, m := range [][3]interface{}{{"Satisfies", r.SatAlloc, p.SatAlloc}, {"ExtractLicenses", r.ExtAlloc, p.ExtAlloc}} {
+				for _, m := range [][3]interface{}{{"Satisfies", r.SatAlloc, p.SatAlloc}, {"ExtractLicenses+ValidateLicenses", r.ExtAlloc, p.ExtAlloc}} {
 					cur, prev := float64(m[1].(int64)), float64(m[2].(int64))
 					if prev > 4096 && cur/prev > lim {
 						cc.fail(m[0].(string), args, fmt.Sprintf("allocation grew x%.1f (%d -> %d bytes) while the input grew x%.2f", cur/prev, m[2], m[1], grow), fmt.Sprintf("growth <= x%.1f (cubic in the input growth, 25%% slack)", lim), "TotalAlloc delta at n and 2n")
